@@ -238,7 +238,6 @@ Proof.
   destruct HI as (Hn & HT & HI & HS).
   assert (Hnoscan : forall k, kind_of s' k <> KScanning).
   { intros k Hk. destruct (scanning_loaded s' k Hk) as (ri & Hri & Hr). apply aget_in in Hri.
-    unfold any_scanning in Hsc. rewrite existsb_forall in Hsc || idtac.
     assert (Hex : existsb (fun e => kind_eqb (ri_kind (snd e)) KScanning) (is_rules s') = true).
     { apply existsb_exists. exists (k, ri). split; auto. cbn [snd]. unfold kind_of in Hk. rewrite Hr in Hk. rewrite Hk. reflexivity. }
     unfold any_scanning in Hsc. congruence. }
